@@ -646,11 +646,15 @@ func (fg *FnGen) convert(v *Val, T types.Type, pos token.Pos) *Val {
 		// []byte / rune -> string
 		if _, ok := types.Unalias(from).Underlying().(*types.Slice); ok {
 			arr, off, n, _ := fg.sliceParts(v)
+			// the string is a function of the bytes converted: converting the same unchanged bytes twice gives the
+			// same string (no extensionality: equal content at different places may still give different ids)
+			e := fg.get(fg.cur, "E:byte", ArrSort(ArrSort(SInt)))
+			f := fg.declareFun("str_of", []Sort{ArrSort(SInt), SInt, SInt}, SInt)
 			sid := fg.fresh("str", SInt)
+			fg.assertRaw(Eq(sid, app(f, SInt, Select(e, arr), off, n)))
 			fg.assume(Eq(fg.strLen(sid), n))
 			fg.assume(Gt(sid, IntLit(0)))
 			// content
-			e := fg.get(fg.cur, "E:byte", ArrSort(ArrSort(SInt)))
 			k := Term{"k!", SInt}
 			body := Implies(And(Le(IntLit(0), k), Lt(k, n)), Eq(fg.strAt(sid, k), Select(Select(e, arr), Add(off, k))))
 			fg.assume(Term{fmt.Sprintf("(forall ((k! Int)) (! %s :pattern (%s)))", body.S, fg.strAt(sid, k).S), SBool})
